@@ -104,9 +104,13 @@ func explore(ld *loaded, j *Job, workers int, seed int64, verbose bool) *JobResu
 				for len(work) == 0 && active > 0 {
 					cond.Wait()
 				}
-				if len(work) == 0 || (j.MaxPaths > 0 && res.Paths >= j.MaxPaths) {
+				overBudget := j.BudgetSec > 0 && time.Since(t0) > time.Duration(j.BudgetSec)*time.Second
+				if len(work) == 0 || (j.MaxPaths > 0 && res.Paths >= j.MaxPaths) || overBudget {
 					if len(work) > 0 {
 						res.Capped = true
+						if overBudget {
+							res.Details[fmt.Sprintf("capped: wall-clock budget of %d s exhausted, exploration stopped (the job is not decided)", j.BudgetSec)]++
+						}
 						work = nil
 					}
 					mu.Unlock()
